@@ -54,7 +54,28 @@ def explore(tier, seed_, years=scenarios.YEARS, per_year=None, replays=True, sna
                         common.rmwork(wdir)
                     sc["variants"].append((label, t2, r2))
             out.append(sc)
+    # a few plain, deliberately chosen returns per year (the random profiles reach these windows only now and then)
+    for year in years:
+        for k, (force, counts, ov) in enumerate(DIRECTED):
+            rng = random.Random("dir-%d-%d-%d" % (seed_, year, k))
+            p = scenarios.Profile(rng, year=year, nc=False, itemize=False, sched1_adjust=False, ira=False, qualified_div=False, foreign_tax=False,
+                                  hsa_you=False, hsa_spouse=False, f8606=False, div_heavy=False, dup_w2=False, plain_payers=True, **force)
+            p.n = dict({"w-2": 1, "1099-int": 0, "1099-div": 0, "1099-r": 0, "1099-g": 0, "1098": 0, "1099-oid": 0}, **counts)
+            tid += 1
+            tr, res, solver, ans = scenarios.solve_scenario(year, ["1040"], p, rng, tid=tid, snap=snap, overrides=dict(ov))
+            out.append({"year": year, "request": ["1040"], "profile": p.describe(), "given": dict(ans.given), "kinds": dict(ans.kinds),
+                        "trace": tr, "res": res, "variants": [], "sid": "%d/d%d" % (year, k)})
     return out
+
+
+# (profile settings, payer counts, answers): one child-credit child and one other dependent, with (2021) advance payments that
+# exceed the child's part of the credit; the same with advance payments below it
+DIRECTED = [
+    ({"status": "HeadOfHousehold", "dependents": 2, "ctc": [True, False, False, False], "under6": [False, False, False, False], "wage_scale": 120000},
+     {}, {"1040.dependent_1_odc": "yes", "1040_s8812.advance_ctc_payments": "3250.00", "w-2:0.box_1": "100000.00", "w-2:0.box_2": "9000.00"}),
+    ({"status": "MarriedFilingJointly", "dependents": 3, "ctc": [True, True, False, False], "under6": [True, False, False, False], "wage_scale": 120000},
+     {}, {"1040.dependent_2_odc": "yes", "1040_s8812.advance_ctc_payments": "1500.00", "w-2:0.box_1": "140000.00", "w-2:0.box_2": "15000.00"}),
+]
 
 
 def repo_test_traces():
